@@ -42,6 +42,7 @@ var c16Marks = map[string]string{
 	"errRetractionContainsCredentials":           "retract-creds",
 	"errInvalidRetractionJTIClaim":               "retract-jti",
 	"errRetractionReferencesUnknownPresentation": "retract-unknown",
+	"errCredentialWithoutID":                     "cred-no-id",
 	"errPresentationValidityExceedsCredentials":  "cred-exp",
 	"Match":                                      "pex-nomatch",
 	"errPresentationDoesNotFulfillDefinition":    "pex-partial",
@@ -205,6 +206,27 @@ func extractC16() *lean {
 		addOrder = append(addOrder, c.name)
 	}
 	l.def("addCalls", "List String", leanStrList(addOrder), addOrder)
+	// storePresentation: what guards the call of the credential store (which dereferences credential.ID)
+	guards := []string{}
+	if sp := funcDecl(store, "storePresentation"); sp != nil {
+		ast.Inspect(sp.Body, func(n ast.Node) bool {
+			if r, ok := n.(*ast.RangeStmt); ok {
+				for _, st := range r.Body.List {
+					if i, ok := st.(*ast.IfStmt); ok {
+						guards = append(guards, "if "+c16ExprSrc(i.Cond))
+					}
+					if a, ok := st.(*ast.AssignStmt); ok && len(a.Rhs) == 1 {
+						if c, ok := a.Rhs[0].(*ast.CallExpr); ok && strings.HasSuffix(exprString(c.Fun), "credentialStore.Store") {
+							guards = append(guards, "credentialStore.Store")
+						}
+					}
+				}
+				return false
+			}
+			return true
+		})
+	}
+	l.def("storeCredentialGuards", "List String", leanStrList(guards), guards)
 	var delConds []string
 	for _, s := range c16Strings(add) {
 		if strings.Contains(s, "credential_subject_id") {
